@@ -59,6 +59,18 @@ public:
     return *this;
   }
 
+  // Integers (e.g. enumerators converted at the call site) must not fall into
+  // the `bool` overload above, which would hash every non-zero value alike.
+  CommandSignature& combine(int i) {
+    value = llvm::hash_combine(value, i);
+    return *this;
+  }
+
+  CommandSignature& combine(unsigned i) {
+    value = llvm::hash_combine(value, i);
+    return *this;
+  }
+
   template <typename T>
   CommandSignature& combine(const std::vector<T>& list) {
     for (const auto& v: list) {
